@@ -5,11 +5,12 @@ import random
 from harness import core, docgen, inputs, trees, xdoc
 
 GEN = ['gen_tables', 'gen_regex', 'gen_config', 'gen_escapes']
-THEOREMS = ['C05_closed_blocks_independent', 'C05_stable_blocks_independent', 'C05_line_numbers_shift', 'C05_blank_line_skipped', 'C05_bounded_pairs']
+THEOREMS = ['C05_closed_blocks_independent', 'C05_stable_blocks_independent', 'C05_any_blocks_independent', 'C05_line_numbers_shift', 'C05_blank_line_skipped', 'C05_bounded_pairs']
 TRUSTED = ['the parser model (tied by X-doc on A, B and A + blank + B)',
            'vm_compute for the bounded sweep of pairs']
-ASSUMPTIONS = ['PARTIAL: the unbounded theorems require every top-level block of A before its closed last block to be closed too, or indented code / fenced '
-               'code / an HTML block; a LIST before the closed last block is covered by the kernel sweep up to its bound and by the oracle on the implementation',
+ASSUMPTIONS = ['the unbounded theorems allow every kind of block before the last block of A: closed blocks; indented code / fenced code / HTML blocks after which A goes '
+               'on; lists that were ended by a line of A (computable flags). PARTIAL in one respect: that "A\'s last block is closed" implies those flags is not '
+               'derived - the full statement is kernel-checked on 781 x 13 pairs and decided on the implementation by the oracle',
                'the theorem is about the block phase (structure and line numbers); with no link definitions in A or B the inline phase is a function of each '
                'block\'s own lines',
                'A is taken with a final newline; the separator is one empty line']
